@@ -126,6 +126,8 @@ func init() {
 			sig := in.(ssa.CallInstruction).Common().Signature()
 			return Val{Tup: fr.freshResults(sig, "uuid")}
 		},
+		"sort.Stable":         sortPerm,
+		"sort.Sort":           sortPerm,
 		"container/heap.Push": heapOp("push"),
 		"container/heap.Pop":  heapOp("pop"),
 		"container/heap.Fix":  heapOp("fix"),
@@ -375,4 +377,35 @@ func heapOp(kind string) trustedFn {
 		}
 		return unitV()
 	}
+}
+
+// sortPerm: sort.Sort / sort.Stable on a slice-typed sort.Interface value permute the slice's elements in place:
+// afterwards every slot in range holds one of the old elements and every old element is still in some slot
+// (the ordering produced by Less is not modelled).
+func sortPerm(fr *Frame, st *State, a []Val, in ssa.Instruction) Val {
+	u := fr.u
+	ci := in.(ssa.CallInstruction)
+	mi, ok := ci.Common().Args[0].(*ssa.MakeInterface)
+	if !ok {
+		u.havocAll(st)
+		return unitV()
+	}
+	slT, ok := mi.X.Type().Underlying().(*types.Slice)
+	if !ok {
+		u.havocAll(st)
+		return unitV()
+	}
+	x := fr.get(mi.X)
+	h := u.arrHeap(slT.Elem())
+	es := u.enc.sortOf(slT.Elem())
+	hc := u.heapCur(st, h)
+	oldRow := sel(hc, app("sl_base", x.T))
+	newRow := u.enc.freshConst("sorted", "(Array Int "+es+")")
+	off, ln := app("sl_off", x.T), app("sl_len", x.T)
+	u.assume(fmt.Sprintf("(forall ((j!s Int)) (! (=> (not (and (<= %s j!s) (< j!s (+ %s %s)))) (= (select %s j!s) (select %s j!s))) :pattern ((select %s j!s))))", off, off, ln, newRow, oldRow, newRow))
+	u.assume(fmt.Sprintf("(forall ((i!s Int)) (! (=> (and (<= 0 i!s) (< i!s %s)) (exists ((k!s Int)) (and (<= 0 k!s) (< k!s %s) (= (select %s (ix %s i!s)) (select %s (ix %s k!s)))))) :pattern ((select %s (ix %s i!s)))))", ln, ln, newRow, off, oldRow, off, newRow, off))
+	u.assume(fmt.Sprintf("(forall ((k!s Int)) (! (=> (and (<= 0 k!s) (< k!s %s)) (exists ((i!s Int)) (and (<= 0 i!s) (< i!s %s) (= (select %s (ix %s i!s)) (select %s (ix %s k!s)))))) :pattern ((select %s (ix %s k!s)))))", ln, ln, newRow, off, oldRow, off, oldRow, off))
+	u.heapStoreAt(st, h, app("sl_base", x.T), newRow)
+	u.note("sort.Sort/Stable: modelled as an in-place permutation of the slice (order not modelled)")
+	return unitV()
 }
